@@ -16,6 +16,7 @@ import Wax.Cmd.Frag2
 import Wax.Cmd.Build
 import Wax.Cmd.Match
 import Wax.Cmd.Walk
+import Wax.FoldMap
 import Wax.Unicode
 import Wax.SemSpec
 import Wax.RuleSpec
@@ -187,6 +188,22 @@ def handle (line : String) : String :=
   | "W" :: rest => cmdW rest
   | "WP" :: rest => cmdWP rest
   | "NP" :: rest => cmdNP rest
+  | ["FM", h] =>
+    -- `token::any` on one pattern: `fold_map(|_| ())` of the parsed tree, wrapped in an alternation
+    match parse (unhex h) with
+    | .err _ => "err"
+    | .ok t =>
+      match FoldMap.foldMap (fun _ => ()) (FoldMap.ofTok t) with
+      | .error e => s!"panic {e}"
+      | .ok t' => s!"ok (alt {t'.dump (fun _ => "")})"
+  | ["FMI", h] =>
+    -- `into_owned`: `fold_map` with the identity on annotations
+    match parse (unhex h) with
+    | .err _ => "err"
+    | .ok t =>
+      match FoldMap.foldMap id (FoldMap.ofTok t) with
+      | .error e => s!"panic {e}"
+      | .ok t' => s!"ok {t'.dump Span.dump}"
   | ["M", e, p] => cmdM e p        -- captures of Glob::matched (Re.exec on Re.hirNorm)
   | ["M0", e, p] => cmdM0 e p      -- same without the regex-syntax normalisation (plain leftmost-first on the printed pattern)
   | ["N", e] => cmdN e             -- the normalised pattern, printed
